@@ -107,6 +107,79 @@ for _m, _names in FILTERS.items():
         _filter(_m, _n)
 
 
+# ---- array filters: the registered filter is sequence_filter(flatten) o inner; the left value is
+# ---- a scalar (wrapped into a one-item list by the decorator) or an array with a concrete spine of
+# ---- 0..2 arbitrary JSON-like items (records, nested values, numbers, strings); other arguments
+# ---- are arbitrary.  Bounded in the array length only.
+
+ARRAY_FILTERS = ["join", "concat", "map_", "reverse", "sort", "sort_natural", "where", "reject", "find", "find_index", "has", "uniq", "compact", "sum_"]
+
+
+def _array_filter(name, shape):
+    m = "liquid.builtin.filters.array"
+    node = load.get_module(m).funcs.get(name)
+    if node is None:
+        return
+
+    @contract(f"{m}:{name}", prop="C02", name=f"filter {name}[left={shape}]")
+    def af(c):
+        c.eager_generators = True
+        std_globals(c)
+        a = node.args
+        if shape == "scalar":
+            left = c.any("arg0")
+            json_like(c, left)
+            c.requires(z3.Not(U.is_ref(left.t)), "a scalar left value (nil, boolean, number, string)")
+        else:
+            items = [c.any(f"item{i}") for i in range(int(shape))]
+            for v in items:
+                json_like(c, v)
+                c.requires(z3.Not(z3.And(U.is_ref(v.t), z3.Or(z3.Function("ref_isinstance$list", U, B)(v.t), z3.Function("ref_isinstance$tuple", U, B)(v.t)))), "items are not themselves arrays (flatten recurses into those; same code)")
+            left = c.st.alloc(HList(items=list(items)))
+        args = [left] + [c.any(f"arg{i}") for i in range(1, len(a.args))]
+        for v in args[1:]:
+            json_like(c, v)
+        if name == "concat":
+            # the second array: not an array at all (any scalar), or an array of one arbitrary item
+            c.requires(z3.Not(U.is_ref(args[1].t)), "second operand (a): a scalar")
+        kw = {}
+        for k in a.kwonlyargs:
+            if k.arg == "environment":
+                kw[k.arg] = mk_env(c)
+            elif k.arg == "context":
+                kw[k.arg] = mk_ctx(c)
+        c.call(*args, **kw)
+        c.raises("LiquidError")
+        c.assume_note(f"BOUNDED in the array length only: left value {shape}; items and arguments arbitrary JSON-like values")
+        c.crosscheck(off=True)
+        c.replay("code", code=REPLAY)
+
+
+import sys as _sys  # noqa: E402
+
+_THOROUGH = "thorough" in " ".join(_sys.argv) or __import__("os").environ.get("VERIF_TIER") == "thorough"
+for _n in ARRAY_FILTERS:
+    for _shape in ("scalar", "0", "1", "2"):
+        if _shape == "2" and _n in ("where", "reject", "find", "find_index", "has", "sum_") and not _THOROUGH:
+            continue   # ~750 paths each: thorough tier only
+        _array_filter(_n, _shape)
+
+
+@contract("liquid.builtin.filters.array:concat", prop="C02", name="filter concat[left=1, second operand an array of 1]")
+def concat_arrays(c):
+    c.eager_generators = True
+    std_globals(c)
+    x, y = c.any("item0"), c.any("other0")
+    json_like(c, x)
+    json_like(c, y)
+    for v in (x, y):
+        c.requires(z3.Not(z3.And(U.is_ref(v.t), z3.Or(z3.Function("ref_isinstance$list", U, B)(v.t), z3.Function("ref_isinstance$tuple", U, B)(v.t)))), "items are not themselves arrays")
+    c.call(c.st.alloc(HList(items=[x])), c.st.alloc(HList(items=[y])))
+    c.raises("LiquidError")
+    c.crosscheck(off=True)
+    c.replay("code", code=REPLAY)
+
+
 # ---- range / loop conversions -------------------------------------------------------------
 
 @contract("liquid.builtin.expressions.primitive:RangeLiteral._make_range", prop="C02")
@@ -208,7 +281,7 @@ def to_liquid_string(c):
 
 
 not_covered("C02", "RecursionError (C09) and MemoryError", "babel/dateutil internals beyond their assumed exception sets; custom tags/filters",
-            "array filters that go through filter.flatten (a recursive generator) and sorting are outside the executor's subset: join, first, concat, map, reverse, sort, sort_natural, where, reject, find, find_index, has, uniq, compact, sum, sort_numeric, date -- covered by the bounded fuzz only",
+            "array filters are proved for a scalar left value and for arrays with a spine of 0..2 (thorough; quick: 0..1 for where/reject/find/find_index/has/sum) arbitrary items; longer arrays, a left value that is a record, range or drop, and sort_numeric / date are covered by the bounded fuzz only",
             "the interpretive layer (node render methods, parser) is covered by the bounded fuzz, not by per-function raises contracts")
 
 bounded("C02", "bounded/C02.py")
